@@ -9,7 +9,7 @@ INFO = {
                "constants define; a JSON number is converted to a double only by the documented arithmetic "
                "functions and the comparator; integer->float casts occur only at tabled sites; the printers write "
                "u64/i64 with a plain `{}` of that type. The number-as-string functions contain no floating-point "
-               "value and call only exact bigdecimal operations. NumberValue::eq on all pairs of 64-bit integer representations (incl. 2^53, 2^53+1, 2^64-1, -2^63) compares integers as integers. JSON values are never identified by their order: no BTreeSet / BTreeMap / BinaryHeap keyed by JsonValue outside the tabled --sort-by buckets (Ord compares numbers as doubles, so two integers above 2^53 would be merged).",
+               "value and call only exact bigdecimal operations. NumberValue::eq on all pairs of 64-bit integer representations (incl. 2^53, 2^53+1, 2^64-1, -2^63) compares integers as integers. JSON values are never identified by their order: no BTreeSet / BTreeMap / BinaryHeap keyed by JsonValue outside the tabled --sort-by buckets (Ord compares numbers as doubles, so two integers above 2^53 would be merged). Every comparison made by a number-as-string comparison function is a comparison of BigDecimal values, never of the raw JSON values or their spelling.",
     "not_decided": "That bigdecimal's + - * abs normalized cmp and std's str::parse are exact (trusted libraries), "
                    "and the equality of printed digits with input digits as a run-time statement.",
     "trusted": ["sa/tables/arithmetic.toml", "sa/tables/nas_exact.toml", "bigdecimal 0.4 operator impls are exact"],
@@ -49,6 +49,33 @@ def nas_float_free(rep, ctx):
     return r
 
 
+def nas_compare_exact(rep, ctx):
+    """The number-as-string comparison functions compare decimal *values*: every comparison in those bodies is a
+    comparison of BigDecimals (a comparison of the raw JSON values or their texts compares spellings: "1.0" vs "1")."""
+    lib = ctx.lib
+    r = rep.rule("C19-NAS-COMPARE", "every comparison made by a number-as-string comparison function is a comparison "
+                 "of bigdecimal::BigDecimal values (never of the raw JSON values or their spelling)", floor=6, analysis="A7 census of the std::cmp calls in the bodies under "
+                                                          "functions::number_as_string::nas_compare, with their resolved self types")
+    seen = {}
+    for name, b in sorted(lib.bodies.items()):
+        if "functions::number_as_string::nas_compare" not in name:
+            continue
+        mod = name.split("nas_compare::", 1)[-1].split("::", 1)[0]
+        for c in b.calls:
+            cal = c.callee or ""
+            if not cal.startswith("std::cmp::"):
+                continue
+            full = c.full or ""
+            key = "%s#%s@%s" % (mod, cal.rsplit("::", 1)[-1], NR.short(name)[-30:])
+            if "bigdecimal::BigDecimal" in full:
+                seen[mod] = seen.get(mod, 0) + 1
+                r.ok(key, full[:90], c.where())
+            else:
+                r.bad(key, "compares %s: two spellings of one number (\"1.0\" and \"1\", \"100\" and \"1E2\") are "
+                      "told apart, or ordered by their text" % full[:120], c.where())
+    return r
+
+
 def run(ctx, rep):
     lib = ctx.lib
     NR.parse_direct(rep, lib)
@@ -62,3 +89,4 @@ def run(ctx, rep):
     NR.print_direct(rep, lib)
     nas_float_free(rep, ctx)
     NR.ord_identity(rep, lib)
+    nas_compare_exact(rep, ctx)
